@@ -36,9 +36,10 @@ Allowed(k) == CASE Entry = "ParseStatements" -> TRUE
 Init == items = <<>> /\ seps = <<>> /\ lead = 1 /\ tail = 1
 Add  == /\ Len(items) < MaxLen
         /\ \E i \in 1..Len(Pool) : Allowed(Pool[i].k) /\ items' = Append(items, i)
-        /\ (IF items = <<>> THEN seps' = seps ELSE \E j \in 1..Len(Seps) : seps' = Append(seps, j))
+        \* every separator variant in the first gap, three of them in later gaps (keeps triples tractable)
+        /\ (IF items = <<>> THEN seps' = seps ELSE \E j \in 1..(IF Len(items) = 1 THEN Len(Seps) ELSE 3) : seps' = Append(seps, j))
         /\ UNCHANGED <<lead, tail>>
-Decor == /\ items # <<>> /\ lead = 1 /\ tail = 1
+Decor == /\ items # <<>> /\ Len(items) <= 2 /\ lead = 1 /\ tail = 1
          /\ \E a \in 1..Len(Leads), b \in 1..Len(Tails) : (a # 1 \/ b # 1) /\ lead' = a /\ tail' = b
          /\ UNCHANGED <<items, seps>>
 Next == Add \/ Decor
